@@ -32,3 +32,5 @@ def fine_grained(chk, sd, binp):
     """schedules of an expiry check racing a fresh ejection / a probe result: HealthRace.tla + gate replay"""
     import health_race
     health_race.run(chk, sd, ["A", "B", "C"], {"C04"})
+    # unbounded complement (TLA+ proof system): FlagSafe / MirrorSafe of HealthRace.tla for any number of threads
+    vlib.tlapm(chk, "HealthRaceProofs")
